@@ -244,6 +244,20 @@ pub fn get_parameter(scopes: &[Scope]) -> Result<(usize, usize), Error> {
     Ok((ty, param.index))
 }
 
+/// The declared type of the nearest enclosing function's parameter, ignoring narrowings: what a
+/// tail call to that function (`^`) has to supply.
+pub fn get_declared_function_parameter(scopes: &[Scope]) -> Result<usize, Error> {
+    scopes
+        .iter()
+        .rev()
+        .find(|scope| scope.kind == ScopeKind::Function)
+        .and_then(|scope| scope.parameter.as_ref())
+        .map(|parameter| parameter.ty)
+        .ok_or_else(|| Error::InternalError {
+            message: "No function parameter available (^ used outside function)".to_string(),
+        })
+}
+
 /// Get the function parameter (for $ operator).
 ///
 /// Walks up scopes to find the nearest Function scope's parameter.
